@@ -374,6 +374,41 @@ def _rand_unit_expr(rnd, units, words, n):
     return "".join(parts), tuple(dims), scale
 
 
+_BASE_SPELL = {"KiloGram": "kg", "Candela": "cd", "Meter": "m", "Second": "s", "Ampere": "A", "Kelvin": "K", "Mole": "mol", "Byte": "B"}
+
+
+def _spell_parts(rnd, units, by_name, parts):
+    """parts: [(NAME, power)] -> (text, dims, scale) with a random accepted spelling (plain or SI-prefixed) per unit; powers written as ^p"""
+    dims = [0] * 8
+    scale = F(1)
+    txt = []
+    for nm, pw in parts:
+        w, pe = rnd.choice(by_name[nm])
+        txt.append(w + (f"^{pw}" if pw != 1 else ""))
+        d = _dims_of_name(units, nm)
+        for j in range(8):
+            dims[j] += d[j] * pw
+        scale *= (F(10) ** pe * _scale_of_name(units, nm)) ** pw
+    return "*".join(txt), tuple(dims), scale
+
+
+def _fill_dims(dims_have, dims_want):
+    """base-unit factors (text) that turn dims_have into dims_want"""
+    out = []
+    for j in range(8):
+        d = dims_want[j] - dims_have[j]
+        if d:
+            out.append(f"{_BASE_SPELL[BASE_ORDER[j]]}^{d}" if d != 1 else _BASE_SPELL[BASE_ORDER[j]])
+    return "*".join(out)
+
+
+def _by_name(words):
+    by = {}
+    for w, nm, pe in words:
+        by.setdefault(nm, []).append((w, pe))
+    return by
+
+
 def _ok_words(rac, words):
     """(spelling, NAME, prefix exponent) for every plain and SI-prefixed spelling the tool reads as exactly that single unit with that
     prefix (how ambiguous spellings are resolved is C05's business, not this stand-in's)"""
@@ -494,6 +529,36 @@ def c03(rac, units, tier, seed):
         scaled = val(f"{k} * {xs} * 1{ua} to {uc}")
         if scaled != k * direct:
             rep.fail("linearity", query=f"{k} * {xs} * 1{ua} to {uc}", expected=str(k * direct), actual=str(scaled))
+    # compound units: every unit re-spelled with another prefix, one unit shared by both sides with DIFFERENT powers, the rest filled with base units
+    by_name = _by_name(words)
+    names_pool = [nm for nm in by_name if nm not in ("CELSIUS", "FAHRENHEIT")]
+    for i in range(n):
+        k = rnd.choice([1, 2, 2, 3])
+        nms = rnd.sample(names_pool, k)
+        parts = [(nm, rnd.choice([1, 1, 2, 3, -1, -2])) for nm in nms]
+        ta, da, sa = _spell_parts(rnd, units, by_name, parts)
+        mode = rnd.choice(["respell", "shared", "shared"])
+        if mode == "respell":
+            tb, db, sb = _spell_parts(rnd, units, by_name, parts)
+        else:
+            nm0, p0 = parts[0]
+            p1 = rnd.choice([q for q in (-2, -1, 1, 2, 3) if q != p0])
+            tb, db, sb = _spell_parts(rnd, units, by_name, [(nm0, p1)])
+        fill = _fill_dims(db, da)
+        used_b = {nm0} if mode != "respell" else {nm for nm, _ in parts}
+        if any(BASE_ORDER[j] in used_b for j in range(8) if da[j] != db[j]):
+            continue    # the filler would write a base unit a second time with another prefix (refused by design: one prefix per unit)
+        if fill:
+            tb = tb + "*" + fill
+        x = F(rnd.randint(1, 40), rnd.choice([1, 3, 8]))
+        q = f"({x.numerator} / {x.denominator}) * 1{ta} to {tb}"
+        exp = x * sa / sb
+        got = val(q)
+        rep.ran(("compound", q), True, dict(query=q, expected=str(exp)) if i < 3 else None)
+        if got is None:
+            rep.fail("commensurable compound conversion refused", query=q, expected=str(exp), actual="error")
+        elif got != exp:
+            rep.fail("compound conversion: product/power of the individual factors", query=q, expected=str(exp), actual=str(got))
     for pw, pe in [("k", 3), ("m", -3), ("M", 6), ("G", 9), ("n", -9), ("c", -2), ("d", -1), ("h", 2), ("da", 1), ("T", 12), ("p", -12), ("f", -15), ("P", 15)]:
         for u in ("m", "s", "J", "W", "N"):
             got = val(f"1 {pw}{u} to {u}")
@@ -586,6 +651,24 @@ def c13(rac, units, tier, seed):
         o = si(f"({a}) / ({a})")
         if o not in (("skip",),) and o != (F(1), (0,) * 8):
             rep.fail("a/a = 1 (dimensionless)", query=f"({a}) / ({a})", expected="1", actual=str(o))
+    # compound units with powers, each operand spelled with other prefixes (km^2 + m^2, g/cm^3 + kg/m^3)
+    by_name = _by_name(words)
+    names_pool = [nm for nm in by_name if nm not in ("CELSIUS", "FAHRENHEIT")]
+    for i in range(n):
+        nms = rnd.sample(names_pool, rnd.choice([1, 1, 2]))
+        parts = [(nm, rnd.choice([1, 2, 3, -1, -2, 2])) for nm in nms]
+        qs = []
+        for _ in range(3):
+            t, _d, _s = _spell_parts(rnd, units, by_name, parts)
+            v = F(rnd.randint(1, 20), rnd.choice([1, 2, 3]))
+            qs.append(f"({v.numerator} / {v.denominator}) * 1{t}")
+        a, b, c = qs
+        same(rep, "a+b = b+a (compound, prefixes)", f"({a}) + ({b})", f"({b}) + ({a})")
+        same(rep, "(a+b)+c = a+(b+c) (compound, prefixes)", f"(({a}) + ({b})) + ({c})", f"({a}) + (({b}) + ({c}))")
+        same(rep, "a*(b+c) = a*b+a*c (compound, prefixes)", f"({a}) * (({b}) + ({c}))", f"({a}) * ({b}) + ({a}) * ({c})")
+        z = si(f"({a}) - ({a})")
+        if z not in (("skip",),) and z[0] != "err" and z[0] != 0:
+            rep.fail("a-a = 0", query=f"({a}) - ({a})", expected="0", actual=str(z))
     for f in facts:
         same(rep, "fact: a*b = b*a", f"{{{f}}} * 2m", f"2m * {{{f}}}")
         o = si(f"{{{f}}} / {{{f}}}")
@@ -900,11 +983,16 @@ def c07(rac, units, tier, seed):
     qs += [(t, lit_oracle(t)) for t in longs if t and t[0].isdigit() and lit_oracle(t) not in (None, "huge")][:300]
     lexed = rac.ask_many([{"cmd": "lex", "s": t} for t, _ in qs], chunk=2000)
     todo = []
+    strict = re.compile(r"^(\d+\.?\d*|\.\d+)([eE][+-]?\d+)?$")   # at least one mantissa digit; exponent digits present when the marker is
     for (t, exp), lx in zip(qs, lexed):
         toks = lx.get("tokens", [])
         if len(toks) == 1 and toks[0][1] == "NUMBER":
             todo.append((t, exp))
             todo.append((t + "%", exp / 100))
+        elif strict.match(t):
+            # the literal's extent is the lexer's decision: a complete literal of the language must come out as ONE NUMBER token
+            rep.ran("lex:" + t, True)
+            rep.fail("a complete decimal literal is not lexed as one NUMBER token", query=t, expected="[NUMBER]", actual=json.dumps(toks)[:200], cmd={"cmd": "lex", "s": t}, raw=lx)
     ans = rac.ask_many([{"cmd": "query", "q": t} for t, _ in todo], chunk=2000)
     for (t, exp), a in zip(todo, ans):
         st = single_value(a)
